@@ -279,14 +279,14 @@ of `d` levels — one call of `ResolveDeep` asks `ResolveReference` for each obj
 theorem resolve_deep_fetches_once (g : RGraph) (m : RMode) (v : RV) :
     (resolveDeepTop g m v).2.fetched.Nodup := by
   unfold resolveDeepTop
-  exact (resolveDeep_inv g m _ [] 0 v ⟨[], [], 0⟩ ⟨List.nodup_nil, by simp⟩).1
+  exact (resolveDeep_inv g m _ [] 0 v ⟨[], [], 0, 0⟩ ⟨List.nodup_nil, by simp⟩).1
 
 /-- **resolve_deep_linear**: the number of activations of `resolveDeep` in one top-level call is at
 most (size of the value) + (total size of the objects of the graph): linear work on any graph,
 where the unrepaired code did `k^d`. -/
 theorem resolve_deep_linear (g : RGraph) (m : RMode) (v : RV) :
     (resolveDeepTop g m v).2.calls ≤ v.size + totalSize g := by
-  have h1 := resolveDeep_calls g m (m.lim + 1) [] 0 v ⟨[], [], 0⟩
+  have h1 := resolveDeep_calls g m (m.lim + 1) [] 0 v ⟨[], [], 0, 0⟩
   have h2 := cost_le_totalSize g _ (resolve_deep_fetches_once g m v)
   unfold resolveDeepTop
   unfold resolveDeepTop at h2
@@ -314,8 +314,15 @@ example : (resolveDeepTop [(1, .arr [.ref 2]), (2, .arr [.ref 1, .leaf 7])] read
     = .ok (.arr [.arr [.ref 1, .leaf 7]]) := rfl
 example : (resolveDeepTop [(3, .arr [.ref 3])] readerMode (.ref 3)).1 = .ok (.arr [.ref 3]) := rfl
 example : (resolveDeepTop [(3, .arr [.ref 3])] (resolverMode 100) (.ref 3)).1 = .error .circular := rfl
+/-- a shared result counts as the resolution it stands for (48aa74b): object 2 is three levels
+deep; met first at level 1 and again at level 3 it is refused there under a limit of 5,
+whichever of the two places is visited first -/
+example : (resolveDeepTop [(2, .arr [.arr [.leaf 7]])] (resolverMode 5) (.arr [.ref 2, .arr [.arr [.ref 2]]])).1
+    = .error .tooDeep := rfl
+example : (resolveDeepTop [(2, .arr [.arr [.leaf 7]])] (resolverMode 5) (.arr [.arr [.arr [.ref 2]], .ref 2])).1
+    = .error .tooDeep := rfl
 /-- at the edge of the depth limit (a small limit so that the kernel can evaluate it) -/
-example : (resolveDeepTop [] ⟨3, true⟩ (.arr [.arr [.leaf 1]])).1 = .ok (.arr [.arr [.leaf 1]]) := rfl
-example : (resolveDeepTop [] ⟨3, true⟩ (.arr [.arr [.arr [.leaf 1]]])).1 = .error .tooDeep := rfl
+example : (resolveDeepTop [] ⟨3, true, false⟩ (.arr [.arr [.leaf 1]])).1 = .ok (.arr [.arr [.leaf 1]]) := rfl
+example : (resolveDeepTop [] ⟨3, true, false⟩ (.arr [.arr [.arr [.leaf 1]]])).1 = .error .tooDeep := rfl
 
 end Tabula.C02Core
